@@ -145,6 +145,26 @@ CHECKS["C14"] = ("Conditional.tla",
     "Trusted: TLC, the os.stat proxy. A date-only request is not required to detect a change within the same second.",
     "DESIGN.md 5 C14")
 
+CHECKS["C13"] = ("HeaderMap.tla, Cookie.tla",
+    "TLC exhaustive model check of the response header mapping (every mutating operation in terms of the checked __setitem__: "
+    "MutationsClean, RejectAtMutation, LowerKeys) with every edge replayed on a real MutableHeaders and every store emitted on "
+    "both interfaces; class-level cookie quoting rule (OnePair) in Cookie.tla; the classes are bound to real characters by "
+    "exhaustive per-character checks",
+    "All operation sequences of length <= 2 (thorough 3) over names/values with CR, LF, NUL, non-ASCII; all 256 characters in "
+    "header names/values through item assignment, append (new and existing key), update, setdefault; cookie name/value over all "
+    "256 characters alone and beside 8 delimiters; redirect targets over the BMP sample (thorough: all of Unicode).",
+    "Trusted: TLC; the codec part is decided by enumeration on the implementation, the model contributes the class structure. "
+    "The constructor argument headers= is not a mutating operation.",
+    "DESIGN.md 5 C13")
+CHECKS["C16"] = ("Cookie.tla",
+    "TLC model check of quoting, request-side unquoting and expiry arithmetic on character classes x zones (OnePair, RoundTrip, "
+    "ExpiresDenotes); every class string concretised through the real set_cookie -> Set-Cookie -> Cookie -> Request.cookies on "
+    "both interfaces in four layouts; all 256 characters alone and beside 7 delimiters; Expires/Max-Age/delete under several "
+    "process time zones (incl. a DST zone) with the clock pinned",
+    "Values of up to 3 (thorough 4) characters over 6 classes; 5 fixed-offset zones + US DST rules x 3 instants x 4 deltas.",
+    "Trusted: TLC, the C library's handling of POSIX TZ strings, email.utils date parsing in the adapter.",
+    "DESIGN.md 5 C16")
+
 NOT_YET = {}
 
 ALL = ["C%02d" % i for i in range(1, 21)]
